@@ -53,6 +53,7 @@ m("C02", "operators/last.py", "            state = None\n\n            def on_ne
 m("C02", "operators/take.py", "                    observer.on_next(i)\n                    i.store.del_key(state, i.key)", "                    i.store.del_key(state, i.key)\n                    observer.on_next(i)", "silent", note="release before forwarding")
 m("C02", "operators/first.py", "                    value = i.store.get_state(state, i.key)\n                    if value is False:", "                    seen = i.store.get_state(state, i.key)\n                    if seen is False:", "silent", note="renamed local")
 # ---------------------------------------------------------------- C03
+m('C03', 'operators/group_by.py', '                    for k in i.store.iterate_map(state, i.key):\n                        index = i.store.get_map(state, i.key, k)\n                        observer.on_next(i._replace(key=(index, i.key)))\n                        i.store.del_map(state, i.key, k)\n                    i.store.del_key(state, i.key)\n                    outer_observer.on_next(i)\n\n                elif type(i) is rs.state.ProbeStateTopology', '                    for k in i.store.iterate_map(i.key, state):\n                        index = i.store.get_map(state, i.key, k)\n                        observer.on_next(i._replace(key=(index, i.key)))\n                        i.store.del_map(state, i.key, k)\n                    i.store.del_key(state, i.key)\n                    outer_observer.on_next(i)\n\n                elif type(i) is rs.state.ProbeStateTopology', 'fire', ['ST-8'], 'hand mutant: swap iterate_map args in Error branch')
 m("C03", "data/roll.py", "if count > 0:", "if count >= 0:", "fire", ["LV"])
 m("C03", "data/split.py", "                elif type(i) is rs.OnCreateMux:\n                    i.store.add_key(state, i.key)\n", "                elif type(i) is rs.OnCreateMux:\n", "fire", ["LV"])
 m("C03", "data/time_split.py", "                        observer.on_next(rs.OnCompletedMux((i.key[0], i.key), i.store))\n                        observer.on_next(rs.OnCreateMux((i.key[0], i.key), i.store))\n                    elif", "                        observer.on_next(rs.OnCompletedMux((i.key[0], i.key), i.store))\n                    elif", "fire", ["LV"])
@@ -122,6 +123,14 @@ m("C09", "math/formal/variance.py", "            v = _moment(acc, mean, 2)\n    
 m("C09", "operators/scan.py", "                        acc = accumulator(value, i.item)\n                        i.store.set_state(state, i.key, acc)\n                        if reduce is False:\n                            observer.on_next(rs.OnNextMux(i.key, acc, i.store))", "                        acc = accumulator(value, i.item)\n                        if reduce is False:\n                            observer.on_next(rs.OnNextMux(i.key, acc, i.store))\n                        i.store.set_state(state, i.key, acc)", "silent", note="store/emit commute")
 m("C09", "operators/scan.py", "                if type(i) is rs.OnNextMux:\n                    try:\n                        value = i.store.get_state(state, i.key)", "                if isinstance(i, rs.OnNextMux):\n                    try:\n                        value = i.store.get_state(state, i.key)", "silent")
 # ---------------------------------------------------------------- C10
+m('C10', 'data/to_deque.py', 'observer.on_next(acc.popleft())', 'observer.on_next(acc.pop())', 'fire', ['SO-2'], 'hand mutant: LIFO')
+m('C10', 'data/to_deque.py', '                    acc.extend(i)', '                    acc.extendleft(i)', 'fire', ['SO-2'], 'hand mutant: extendleft')
+m('C10', 'data/to_deque.py', '                    acc.extend(i)', '                    acc.append(i)', 'fire', ['SO-2'], 'hand mutant: append in extend mode')
+m('C10', 'data/to_deque.py', '                    pass\n                observer.on_completed()', '                    pass', 'fire', ['SO-2'], 'hand mutant: no completion')
+m('C10', 'data/to_deque.py', '                    acc.append(i)\n', '                    acc.appendleft(i)\n', 'fire', ['SO-2'], 'hand mutant: appendleft')
+m('C10', 'data/to_deque.py', '                if extend is True:', '                if extend is False:', 'fire', ['SO-2'], 'hand mutant: inverted extend')
+m('C10', 'data/to_deque.py', '                print("to_deque now flushing")\n', '', 'silent')
+m('C10', 'data/to_deque.py', '                    acc.append(i)\n', '                    acc.append(i)\n                    observer.on_next(i)\n', 'fire', ['SO-2'], 'hand mutant: emits early')
 m('C10', 'data/pad.py', '                        v = value if value is not None else i.item', '                        v = value if value else i.item', 'fire', ['OPT-1'], 'hand mutant: falsy explicit pad_start value')
 m('C10', 'data/pad.py', '                        v = value if value is not None else i.item', '                        v = value or i.item', 'fire', ['FW-2'], 'hand mutant: falsy explicit pad_start value (or)')
 m('C10', 'data/pad.py', '                        if value is not None:\n                            v = value', '                        if value:\n                            v = value', 'fire', ['OPT-1'], 'hand mutant: falsy explicit pad_end value')
@@ -157,6 +166,7 @@ m("C12", "math/formal/variance.py", "v = _moment(acc, mean, 2)", "v = _moment(ac
 m("C12", "math/variance.py", "m = m + (i - m) / k", "m = (m * (k - 1) + i) / k", "silent", note="algebraically equal mean update")
 m("C12", "math/min.py", "if acc is None or i < acc:", "if acc is None or acc > i:", "silent")
 # ---------------------------------------------------------------- C13
+m('C13', 'operators/group_by.py', '                    for k in i.store.iterate_map(state, i.key):\n                        index = i.store.get_map(state, i.key, k)\n                        observer.on_next(i._replace(key=(index, i.key)))\n                        i.store.del_map(state, i.key, k)\n                    i.store.del_key(state, i.key)\n                    outer_observer.on_next(i)\n\n                elif type(i) is rs.state.ProbeStateTopology', '                    for k in i.store.iterate_map(i.key, state):\n                        index = i.store.get_map(state, i.key, k)\n                        observer.on_next(i._replace(key=(index, i.key)))\n                        i.store.del_map(state, i.key, k)\n                    i.store.del_key(state, i.key)\n                    outer_observer.on_next(i)\n\n                elif type(i) is rs.state.ProbeStateTopology', 'fire', ['ST-8'], 'hand mutant: swap iterate_map args in Error branch')
 m("C13", "operators/filter.py", "                    except Exception as e:", "                    except ValueError as e:", "fire", ["ER-1"])
 m("C13", "operators/map.py", "observer.on_next(rs.OnErrorMux(i.key, e, i.store))", "observer.on_next(rs.OnErrorMux(i.key, e))", "fire", ["ER-1"])
 m("C13", "error/router.py", "                        dead_letter_observer.on_completed()\n\n                    observer.on_completed()", "                        pass\n\n                    observer.on_completed()", "fire", ["ER-2"])
@@ -172,6 +182,10 @@ m("C14", "state/memory_store.py", "        self.state[key[0]] = rs.state.markers
 m("C14", "state/store.py", "        return self.states[state].set(key, value)", "        return self.states[state].set(value, key)", "fire", ["MS-6"])
 m("C14", "state/memory_store.py", "append_count = (key[0]+1) - len(self.state)", "append_count = key[0] + 1 - len(self.keys)", "silent")
 # ---------------------------------------------------------------- C15
+m('C15', 'framing/length_prefix.py', '                while bio_len - offset >= prefix_size:', '                while bio_len + offset >= prefix_size:', 'fire', ['CMP-2', 'FR-2'], 'hand mutant: while avail uses +offset')
+m('C15', 'framing/length_prefix.py', '                    if bio_len - offset - prefix_size >= size:', '                    if bio_len + offset - prefix_size >= size:', 'fire', ['CMP-2', 'FR-2'], 'hand mutant: size check uses +offset')
+m('C15', 'framing/length_prefix.py', '                    if bio_len - offset - prefix_size >= size:', '                    if bio_len - offset >= size:', 'fire', ['CMP-2', 'FR-2'], 'hand mutant: size check ignores prefix')
+m('C15', 'framing/length_prefix.py', '                        offset += size + prefix_size', '                        offset += size', 'fire', ['CMP-2', 'FR-2'], 'hand mutant: offset ignores prefix')
 m("C15", "framing/length_prefix.py", "if bio_len - offset - prefix_size >= size:", "if bio_len - offset - prefix_size > size:", "fire", ["CMP-2"])
 m("C15", "framing/length_prefix.py", "while bio_len - offset >= prefix_size:", "while bio_len - offset > prefix_size:", "fire", ["CMP-2"])
 m("C15", "framing/length_prefix.py", "                bio.write(acc)\n                bio.write(i)", "                bio.write(i)", "fire", ["FR-2"])
@@ -187,14 +201,38 @@ m("C16", "compression/zstd.py", "                    if not decompressor.eof:\n 
 m("C17", "data/codec.py", "                    data = decoder.decode(b'', final=True)\n                    observer.on_next(data)", "                    pass", "fire", ["CD-1"])
 m("C17", "data/codec.py", "def decode(encoding='utf8', incremental=True):", "def decode(encoding='utf8', incremental=False):", "fire", ["CD-1"])
 # ---------------------------------------------------------------- C18
+m('C18', 'io/file.py', 'while not disposed and len(data) > 0:', 'while not disposed and len(data) > 1:', 'fire', ['FR-3', 'FH-1'], 'hand mutant: last 1-byte chunk lost')
+m('C18', 'io/file.py', 'while not disposed and len(data) > 0:', 'while not disposed and len(data) >= size:', 'fire', ['FR-3', 'FH-1'], 'hand mutant: short last chunk lost')
+m('C18', 'io/file.py', 'while not disposed and len(data) > 0:', 'while not disposed and data:', 'silent')
+m('C18', 'io/file.py', '                    while not disposed and len(data) > 0:\n                        observer.on_next(data)\n                        data = f.read(size)', '                    while not disposed and len(data) > 0:\n                        data = f.read(size)\n                        observer.on_next(data)', 'fire', ['FR-3', 'FH-1'], 'hand mutant: first chunk skipped')
+m('C18', 'io/file.py', '                else:\n                    read_data(file)', '                else:\n                    pass', 'fire', ['FR-3', 'FH-1'], 'hand mutant: file object never read')
+m('C18', 'io/file.py', '            def on_completed():\n                if type(file) is str:\n                    f.close()\n', '            def on_completed():\n', 'fire', ['FR-3', 'FH-1'], 'hand mutant: file never closed on completion')
+m('C18', 'io/file.py', '            def on_completed():\n                if type(file) is str:\n                    f.close()\n', '            def on_completed():\n                f.close()\n', 'fire', ['FR-3', 'FH-1'], "hand mutant: closes caller's file object")
+m('C18', 'io/file.py', '                if type(file) is str:\n                    f.close()\n                observer.on_completed()', '                observer.on_completed()\n                if type(file) is str:\n                    f.close()', 'fire', ['FR-3', 'FH-1'], 'hand mutant: closed after completion')
+m('C18', 'container/csv.py', '            elif len(t) > 0 and t[0] == \'"\' and t[-1] == \'"\' and t[-2] != escapechar and agg is None:', '            elif len(t) < 0 and t[0] == \'"\' and t[-1] == \'"\' and t[-2] != escapechar and agg is None:', 'fire', ['CS-3'], 'hand mutant: complete quoted piece opens a field')
+m('C18', 'container/csv.py', '            elif len(t) > 0 and t[0] == \'"\' and t[-1] == \'"\' and t[-2] != escapechar and agg is None:', '            elif len(t) >= 0 and t[0] == \'"\' and t[-1] == \'"\' and t[-2] != escapechar and agg is None:', 'fire', ['CS-3'], 'hand mutant: index beyond an empty piece')
+m('C18', 'container/csv.py', '            elif len(t) > 0 and t[-1] == \'"\' and t[-2] != escapechar and agg is not None:', '            elif len(t) > 0 and t[-1] == \'"\' and agg is not None:', 'fire', ['CS-3'], 'hand mutant: escaped quote closes the field')
+m('C18', 'container/csv.py', '            elif len(t) > 0 and t[0] == \'"\' and agg is None:', '            elif len(t) > 0 and t[-1] == \'"\' and agg is None:', 'fire', ['CS-3'], 'hand mutant: field opened by a trailing quote')
+m('C18', 'container/csv.py', '            elif len(t) > 0 and t[0] == \'"\' and agg is None:', '            elif len(t) > 1 and t[0] == \'"\' and agg is None:', 'silent')
 m("C18", "container/csv.py", "                        f = f.replace(escapechar, f'{escapechar}{escapechar}')\n", "", "fire", ["CS-1"])
 m("C18", "container/csv.py", "        return lambda i: i == 'True'", "        return lambda i: i == 'true'", "fire", ["CS-1"])
 m("C18", "container/csv.py", "def parse_decimal(ii):\n    if len(ii) == 0:\n        return None\n    return float(ii)", "def parse_decimal(ii):\n    if len(ii) == 0:\n        return None\n    s = ii.split('.')\n    r = int(s[1]) / (10 ** len(s[1])) if len(s) > 1 else 0\n    return float(int(s[0])) + r", "fire", ["DP-7"], "the repaired defect")
 m("C18", "container/csv.py", "            elif agg is not None:\n                agg.append(t)\n            else:\n                merged_parts.append(t)", "            elif agg is not None and len(t) > 0:\n                agg.append(t)\n            elif agg is None:\n                merged_parts.append(t)", "fire", ["CS-2"], "like seeded change C18a: empty piece inside a quoted field dropped")
 # ---------------------------------------------------------------- C19
+m('C19', 'io/file.py', 'while not disposed and len(data) > 0:', 'while not disposed and len(data) > 1:', 'fire', ['FR-3', 'FH-1'], 'hand mutant: last 1-byte chunk lost')
+m('C19', 'io/file.py', 'while not disposed and len(data) > 0:', 'while not disposed and len(data) >= size:', 'fire', ['FR-3', 'FH-1'], 'hand mutant: short last chunk lost')
+m('C19', 'io/file.py', 'while not disposed and len(data) > 0:', 'while not disposed and data:', 'silent')
+m('C19', 'io/file.py', '                    while not disposed and len(data) > 0:\n                        observer.on_next(data)\n                        data = f.read(size)', '                    while not disposed and len(data) > 0:\n                        data = f.read(size)\n                        observer.on_next(data)', 'fire', ['FR-3', 'FH-1'], 'hand mutant: first chunk skipped')
+m('C19', 'io/file.py', '                else:\n                    read_data(file)', '                else:\n                    pass', 'fire', ['FR-3', 'FH-1'], 'hand mutant: file object never read')
+m('C19', 'io/file.py', '            def on_completed():\n                if type(file) is str:\n                    f.close()\n', '            def on_completed():\n', 'fire', ['FR-3', 'FH-1'], 'hand mutant: file never closed on completion')
+m('C19', 'io/file.py', '            def on_completed():\n                if type(file) is str:\n                    f.close()\n', '            def on_completed():\n                f.close()\n', 'fire', ['FR-3', 'FH-1'], "hand mutant: closes caller's file object")
+m('C19', 'io/file.py', '                if type(file) is str:\n                    f.close()\n                observer.on_completed()', '                observer.on_completed()\n                if type(file) is str:\n                    f.close()', 'fire', ['FR-3', 'FH-1'], 'hand mutant: closed after completion')
 m("C19", "container/json.py", "        'gzip': rs.compression.z.decompress,\n        'zstd': rs.compression.zstd.decompress,", "        'gzip': rs.compression.zstd.decompress,\n        'zstd': rs.compression.z.decompress,", "fire", ["AG-7"])
 m("C19", "container/json.py", "                rs.data.decode(encoding),\n                line.unframe(),\n                load(skip=skip, ignore_error=ignore_error),\n        )\n    else:", "                line.unframe(),\n                rs.data.decode(encoding),\n                load(skip=skip, ignore_error=ignore_error),\n        )\n    else:", "fire", ["AG-7"])
 # ---------------------------------------------------------------- C20
+m('C20', 'container/parquet.py', '                    writer.close()\n                    writer = None\n                    if type(filename) is str:\n                        f.close()\n\n                    observer.on_completed()', '                    if type(filename) is str:\n                        f.close()\n                    writer.close()\n                    writer = None\n\n                    observer.on_completed()', 'fire', ['FH-1', 'PU-2'], 'hand mutant: file closed before footer')
+m('C20', 'container/parquet.py', '                    writer.close()\n                    writer = None\n                    if type(filename) is str:\n                        f.close()\n\n                    observer.on_completed()', '                    writer.close()\n                    writer = None\n\n                    observer.on_completed()', 'fire', ['FH-1', 'PU-2'], 'hand mutant: parquet file not closed')
+m('C20', 'container/parquet.py', '                    if disposed:\n                        break', '                    if not disposed:\n                        break', 'fire', ['FH-1', 'PU-2'], 'hand mutant: loader stops after first batch')
 m("C20", "container/parquet.py", "rs.data.batch(batch_size=batch_size),", "rs.data.batch(batch_size=1024),", "fire", ["PU-2"])
 m("C20", "container/parquet.py", "        columns_type = [t for t in schema.types]\n\n        def _create_record(data):\n            columns_data = [ [] for n in columns_name]\n", "        columns_type = [t for t in schema.types]\n        columns_data = [ [] for n in columns_name]\n\n        def _create_record(data):\n", "fire", ["PU-2"], "the repaired defect")
 
